@@ -159,6 +159,34 @@ fn entry_point_check(spec: &RunSpec, table: &RefTable, out: &mut Vec<Violation>,
         if cfg.kind.is_probe() && !op.plan.is_empty() {
             continue;
         }
+        // single-point entry points among themselves: interp_scalar / interp_into vs interp
+        if let Call::Scalar { x, y } | Call::InterpInto { x, y, .. } = &op.call {
+            if let Call::InterpInto { buf, .. } = &op.call {
+                if !(buf.exact && buf.lay == Lay::C) {
+                    continue;
+                }
+            }
+            if res.class == Class::Panic || res.class == Class::Skip {
+                continue;
+            }
+            let single = Op { slot: op.slot, call: Call::Interp { x: *x, y: *y }, plan: op.plan.clone(), yield_mask: 0, check_acc: false };
+            let slot = build_slot(cfg)?;
+            let s = exec(&*slot, &single);
+            counters.add("entrypoint.comparisons", 1);
+            let differ = s.class != res.class || s.text != res.text || (s.class == Class::Ok && s.bits != res.bits);
+            if s.class != Class::Panic && differ {
+                out.push(Violation {
+                    property: "C17".into(),
+                    kind: "entry-point-mismatch".into(),
+                    detail: format!("slot={} [{}] {}({:?},{:?}) gives {} but interp gives {}", op.slot, cfg.label(), op.call.name(), x.0, y.0, res.brief(), s.brief()),
+                    thread: 0,
+                    op: 0,
+                    step: 0,
+                });
+                return Ok(());
+            }
+            continue;
+        }
         let (q, via_into) = match &op.call {
             Call::Array { q } => (q, false),
             Call::ArrayInto { q, buf } if buf.exact && buf.lay == Lay::C => (q, true),
@@ -600,6 +628,8 @@ pub fn run_spec(spec: &RunSpec, prop: Prop, opts: &RunOpts) -> RunResult {
     res.compared = outs.len();
     res.counters.add("fault.crash.fired", *crashed.lock().unwrap());
     res.counters.add("sched.switches", summary.switches as u64);
+    res.counters.add("fault.stall.fired", if summary.stall_hits > 0 { 1 } else { 0 });
+    res.counters.add("fault.stall.decisions_withheld", summary.stall_hits as u64);
     res.counters.add("reach.callback_interleaved_with_foreign_operation", summary.callback_switches as u64);
     if summary.lost_control {
         res.counters.add("sched.lost_control", 1);
